@@ -5,7 +5,7 @@ import Ymq.Lemmas.ParamsDefs
 namespace Ymq.C20.Dec
 open Ymq.Checked Ymq.Gen Ymq.Gen.Params Ymq.C20
 
-theorem fbase_request : ∀ sz, sz ≤ 512 → ∀ d m8 : Bool,
+theorem fbase_request : ∀ sz, sz ≤ 520 → ∀ d m8 : Bool,
     Holds (siqs.fb_size sz d m8) FbRequestOk ∧ Holds (params.factor_base_size sz) FbRequestOk ∧
     Holds (params.qs_fb_size sz d) FbRequestOk ∧ Holds (params.mpqs_fb_size sz d) FbRequestOk ∧
     Holds (params.clsgrp_fb_size sz d) FbRequestOk := by decide +kernel
